@@ -157,7 +157,43 @@ def _gen_adapter_ops(rng, n):
     return cases
 
 
+def _impl_closure_history(inp):
+    return [_impl_closure(st) for st in inp["steps"]]
+
+
+def _holds_closure_history(ctx, inp, out):
+    for i, (st, o) in enumerate(zip(inp["steps"], out)):
+        msg = _holds_closure(ctx, st, o)
+        if msg:
+            return f"step {i + 1} of {len(out)} (after earlier saves in the same process): {msg}"
+    return None
+
+
+def _cmp_closure_history(inp, io, mo):
+    for i, (st, a, b) in enumerate(zip(inp["steps"], io, mo)):
+        msg = _cmp_closure(st, a, b)
+        if msg:
+            return f"step {i + 1} of {len(io)} (after earlier saves in the same process): {msg}"
+    return None
+
+
+def _history_cases(rng, n):
+    """several collections over the *same* pools of objects, saved one after the other in one process"""
+    out = []
+    for _ in range(n):
+        g = aoefgen.Gen(rng, base="/data/audio")
+        tys = rng.sample(aoefgen.TYPES, 3) + [rng.choice(aoefgen.TYPES)]
+        steps = [{"collection": g.collection(ty), "audio_dir": rng.choice([None, "/data/audio"])} for ty in tys]
+        steps.append(copy.deepcopy(steps[0]))
+        out.append({"steps": steps})
+    return out
+
+
 OPS = {
+    "closure_history": Op("closure_history", _impl_closure_history, model_op="reach_history",
+                          to_model=lambda i: {"steps": [{"collection": s["collection"]} for s in i["steps"]]},
+                          holds=_holds_closure_history, compare=_cmp_closure_history,
+                          nontrivial=lambda i, o: all("defs" in x for x in o)),
     "adapter_ops": Op("adapter_ops", _impl_adapter_ops, nontrivial=lambda i, o: isinstance(o, list) and len(o) > 2),
     "closure": Op("closure", _impl_closure, to_model=lambda i: {"collection": i["collection"]}, model_op="reach",
                   holds=_holds_closure, compare=_cmp_closure,
@@ -246,6 +282,13 @@ def _correspondence(ctx):
     ctx.run_cases(OPS["closure"], ot)
     ctx.run_cases(OPS["closure"], _gen_cases(ctx, ctx.rng, ctx.budget(120, 4000)))
     ctx.run_cases(OPS["closure"], _gen_cases(ctx, ctx.rng, ctx.budget(6, 30), size=2.5))
+    # histories: collections of several types over the same pools of objects, saved in one process
+    hc = _history_cases(ctx.rng, ctx.budget(40, 300))
+    oks = ctx.driver.call_many("C01", "wf", [{"collection": s["collection"]} for h in hc for s in h["steps"]])
+    it = iter(oks)
+    hc = [h for h in hc if all([next(it) for _ in h["steps"]])]
+    ctx.run_cases(OPS["closure_history"], hc)
+    ctx.tally("closure-history cases (5 saves each)", len(hc))
     # adapters.py as a state machine: random operation sequences on the real UserAdapter / TagAdapter
     ctx.run_cases(OPS["adapter_ops"], _gen_adapter_ops(ctx.rng, ctx.budget(600, 20000)))
 
